@@ -115,3 +115,52 @@ def variant_update_genotypes_sample_list(c):
     c.ensures(lambda: z3.And(c.result >= 0, z3.If(L == -1, c.new.arr(gp) == G, painted(c.new.arr(gp), lpos(R) + 1))),
               "exactly_the_samples_below_the_node_take_the_derived_allele")
     c.assigns(gp)
+
+
+# ------------------------------------------------------------------------------------------ sample list of a variant
+@contract("trees.c", "tsk_treeseq_get_num_nodes", ["self"])
+def treeseq_get_num_nodes(c):
+    self_ = c.arg("self")
+    h = c.old
+    tp = h.get(self_, "tables")
+    c.requires(z3.And(z3.Not(h.isnull(self_)), z3.Not(h.isnull(tp)), tp.off == 0, h.len(tp) >= 1))
+    c.ensures(lambda: c.result == h.get(h.sub(tp, "nodes"), "num_rows"), "value")
+    c.assigns()
+
+
+@contract("genotypes.c", "variant_init_samples_and_index_map",
+          ["self", "tree_sequence", "samples", "num_samples", "num_samples_alloc", "options"])
+def variant_init_samples_and_index_map(c):
+    """C09 (named in the property): every requested sample id is checked against the node table - and, unless isolated
+    samples are imputed, against the sample flag - before it indexes the reverse map; duplicates are refused"""
+    from .common import TC, flag
+    self_, tsp, sp, ns, nalloc, options = (c.arg("self"), c.arg("tree_sequence"), c.arg("samples"), c.arg("num_samples"),
+                                           c.arg("num_samples_alloc"), c.arg("options"))
+    h, E = c.old, c.E
+    c.requires(z3.And(z3.Not(h.isnull(self_)), z3.Not(h.isnull(tsp))))
+    tp = h.get(tsp, "tables")
+    c.requires(z3.And(z3.Not(h.isnull(tp)), tp.off == 0, h.len(tp) >= 1))
+    T = TC(h, tp)
+    c.requires(T.nodes.rep())
+    nn = T.nodes.n
+    c.requires(z3.And(0 <= ns, ns <= nalloc, nalloc <= MAX_ROWS), "allocation_covers_the_samples")
+    c.requires(z3.Implies(ns > 0, z3.And(z3.Not(h.isnull(sp)), sp.off == 0, h.len(sp) >= ns)))
+    ids = h.arr(sp) if sp.region is not None else None
+    fl = T.nodes.col("flags")
+    impute = flag(options, E.TSK_ISOLATED_NOT_MISSING)
+    good = (lambda q: z3.And(0 <= ids[q], ids[q] < nn, z3.Or(impute, flag(fl[ids[q]], E.TSK_NODE_IS_SAMPLE)))) \
+        if ids is not None else (lambda q: z3.BoolVal(True))
+
+    def mapped(s, upto):
+        mp = s.get(self_, "alt_sample_index_map")
+        if mp.region is None:
+            return z3.BoolVal(upto is None)
+        M = s.arr(mp)
+        return z3.And(z3.Not(s.isnull(mp)), mp.off == 0, s.len(mp) >= nn,
+                      z3.ForAll([u_], z3.Implies(z3.And(0 <= u_, u_ < upto), z3.And(good(u_), M[ids[u_]] == u_))),
+                      z3.ForAll([k], z3.Implies(z3.And(0 <= k, k < nn), z3.And(-1 <= M[k], M[k] < upto))))
+    c.loop(0).invariant(lambda s: z3.And(0 <= s.j, s.j <= ns, s.ret == 0, s.num_nodes == nn, mapped(s, s.j)))
+    c.ensures(lambda: z3.Implies(c.result == 0, mapped(c.new, ns)), "accepted_ids_checked_and_mapped_to_their_positions")
+    c.ensures(lambda: z3.Or(c.result == 0, c.result == E.TSK_ERR_NO_MEMORY, c.result == E.TSK_ERR_NODE_OUT_OF_BOUNDS,
+                            c.result == E.TSK_ERR_DUPLICATE_SAMPLE, c.result == E.TSK_ERR_MUST_IMPUTE_NON_SAMPLES), "codes")
+    c.assigns(self_, ["alt_samples", "alt_sample_index_map"])
